@@ -182,6 +182,9 @@ class Inliner:
         self.known = known_functions()
         self.counter = 0
         self.expanded: Dict[str, int] = {}
+        self.objs: Dict[str, object] = {}          # local name -> ClassInfo of a new helper class whose instance it holds
+        self._recv_name: Dict[int, str] = {}
+        self._pending_recv: Optional[str] = None
 
     # -- which callee ----------------------------------------------------------------------
     def _target(self, fi, call: ast.Call):
@@ -201,6 +204,14 @@ class Inliner:
             if len(ms) != 1 or ms[0].is_property:
                 return None, False
             tgt, recv_self = ms[0], True
+        elif isinstance(f, ast.Attribute) and isinstance(f.value, ast.Name) and f.value.id in self.objs:
+            # a method of a local helper object (new class, promoted to locals): expanded with self := the local
+            ci = self.objs[f.value.id]
+            m = self.prog.lookup_method(ci, f.attr)
+            if m is None or m.is_property:
+                return None, False
+            self._recv_name[id(call)] = f.value.id
+            tgt = m
         elif isinstance(f, ast.Attribute):
             st = self.prog._resolve_callable_static(fi, f)
             if isinstance(st, FuncInfo) and (st.is_static or st.cls is None):
@@ -293,6 +304,9 @@ class Inliner:
         for name in assigned:
             if name not in mapping:
                 mapping[name] = tag + name
+        if self._pending_recv is not None:
+            mapping["self"] = ast.Name(id=self._pending_recv, ctx=ast.Load())
+            self._pending_recv = None
         ren = _Rename(mapping)
         body = [ren.visit(st) for st in body]
         self._carry_globals(callee, body)
@@ -317,6 +331,7 @@ class Inliner:
                         dst.imports[nm] = (src.name, nm)
 
     def expand_stmt(self, fi, st: ast.stmt, depth: int) -> Optional[List[ast.stmt]]:
+        self._pending_recv = None
         call = None
         kind = None
         if isinstance(st, ast.Expr) and isinstance(st.value, ast.Call):
@@ -327,12 +342,16 @@ class Inliner:
             call, kind = st.value, "return"
         if call is None:
             return None
+        ctor = self._expand_ctor(fi, st, depth)
+        if ctor is not None:
+            return ctor
         callee, recv_self = self._target(fi, call)
         if callee is None:
             return None
-        b = self._bind(callee, call, recv_self)
+        b = self._bind(callee, call, recv_self or id(call) in self._recv_name)
         if b is None:
             return None
+        self._pending_recv = self._recv_name.get(id(call))
         body0 = _strip_doc(callee.node.body)
         structured = False
         if _has_inner_return(body0):
@@ -379,6 +398,89 @@ class Inliner:
             ast.fix_missing_locations(n)
         self.expanded[callee.qualname] = self.expanded.get(callee.qualname, 0) + 1
         return self.expand_block(fi, out, depth + 1)
+
+    def _expand_ctor(self, fi, st: ast.stmt, depth: int) -> Optional[List[ast.stmt]]:
+        """`v = NewClass(args)` / `v = NewClass(args) if c else None` for a promoted local v: a sentinel object plus the body of
+        __init__ with self := v (the attribute stores become `v.f = ..`, turned into locals `v__f` at the end)."""
+        if not (isinstance(st, ast.Assign) and len(st.targets) == 1 and isinstance(st.targets[0], ast.Name) and st.targets[0].id in self.objs):
+            return None
+        v = st.targets[0].id
+        ci = self.objs[v]
+        val = st.value
+        cond = None
+        if isinstance(val, ast.IfExp) and isinstance(val.orelse, ast.Constant) and val.orelse.value is None:
+            cond, val = val.test, val.body
+        if not (isinstance(val, ast.Call) and isinstance(val.func, ast.Name) and self.prog.resolve_symbol(fi.module, val.func.id) is ci):
+            return None
+        sentinel = ast.copy_location(ast.Assign(targets=[ast.Name(id=v, ctx=ast.Store())], value=ast.Call(func=ast.Name(id="object", ctx=ast.Load()), args=[], keywords=[])), st)
+        init = self.prog.lookup_method(ci, "__init__")
+        out: List[ast.stmt] = [sentinel]
+        if init is not None and init.cls is not None and init.cls.qualname.startswith("pygradflow"):
+            b = self._bind(init, val, True)
+            if b is None or _has_inner_return(_strip_doc(init.node.body)):
+                return None
+            self._pending_recv = v
+            prologue, body = self._instantiate(init, b)
+            body = [x for x in body if not (isinstance(x, ast.Return) and x.value is None)]
+            out = out + prologue + body
+            self.expanded[init.qualname] = self.expanded.get(init.qualname, 0) + 1
+        if cond is not None:
+            none_ = ast.copy_location(ast.Assign(targets=[ast.Name(id=v, ctx=ast.Store())], value=ast.Constant(value=None)), st)
+            out = [ast.copy_location(ast.If(test=cond, body=out, orelse=[none_]), st)]
+        for n in out:
+            ast.fix_missing_locations(n)
+        return self.expand_block(fi, out, depth + 1)
+
+    def _find_objs(self, fi, body: List[ast.stmt]) -> Dict[str, object]:
+        """locals holding an instance of a NEW helper class that never escapes: bound once by `v = C(..)` (optionally
+        `.. if c else None`), used only as `v.attr`, `v.method(..)` or in `v is [not] None` tests."""
+        from .model import ClassInfo
+        cands: Dict[str, object] = {}
+        stores: Dict[str, int] = {}
+        fn = ast.Module(body=body, type_ignores=[])
+        for n in ast.walk(fn):
+            if isinstance(n, ast.Name) and isinstance(n.ctx, ast.Store):
+                stores[n.id] = stores.get(n.id, 0) + 1
+            if isinstance(n, ast.Assign) and len(n.targets) == 1 and isinstance(n.targets[0], ast.Name):
+                val = n.value
+                if isinstance(val, ast.IfExp) and isinstance(val.orelse, ast.Constant) and val.orelse.value is None:
+                    val = val.body
+                if isinstance(val, ast.Call) and isinstance(val.func, ast.Name):
+                    ci = self.prog.resolve_symbol(fi.module, val.func.id)
+                    if isinstance(ci, ClassInfo) and not ci.bases and not [b for b in ci.ext_bases if b != "object"] and not ci.subclasses \
+                            and not any(m.qualname in self.known for m in ci.methods.values()):
+                        cands[n.targets[0].id] = ci
+        out = {}
+        parents = {}
+        for n in ast.walk(fn):
+            for c in ast.iter_child_nodes(n):
+                parents[id(c)] = n
+        for v, ci in cands.items():
+            if stores.get(v, 0) != 1:
+                continue
+            ok = True
+            for n in ast.walk(fn):
+                if isinstance(n, ast.Name) and n.id == v and isinstance(n.ctx, ast.Load):
+                    p = parents.get(id(n))
+                    if isinstance(p, ast.Attribute) and p.value is n:
+                        continue
+                    if isinstance(p, ast.Compare) and len(p.ops) == 1 and isinstance(p.ops[0], (ast.Is, ast.IsNot)) and isinstance(p.comparators[0], ast.Constant) and p.comparators[0].value is None:
+                        continue
+                    ok = False
+                    break
+            if ok:
+                out[v] = ci
+        return out
+
+    @staticmethod
+    def _fields_to_locals(body: List[ast.stmt], objs) -> List[ast.stmt]:
+        class T(ast.NodeTransformer):
+            def visit_Attribute(self, node):
+                self.generic_visit(node)
+                if isinstance(node.value, ast.Name) and node.value.id in objs:
+                    return ast.copy_location(ast.Name(id=f"{node.value.id}__{node.attr}", ctx=node.ctx), node)
+                return node
+        return [ast.fix_missing_locations(T().visit(b)) for b in body]
 
     def expr_value_of(self, callee) -> Optional[ast.AST]:
         """the helper as one expression of its parameters, if it is expression-like."""
@@ -552,6 +654,16 @@ class Inliner:
             if h is not None:
                 out += h
                 continue
+            if isinstance(st, ast.If) and isinstance(st.test, ast.BoolOp) and isinstance(st.test.op, ast.And) and not st.orelse and isinstance(st.test.values[-1], ast.Call):
+                # `if a and self._helper(..): body`  ->  `if a: if self._helper(..): body`   (same short-circuit order)
+                callee, _ = self._target(fi, st.test.values[-1])
+                self._recv_name.pop(id(st.test.values[-1]), None)
+                if callee is not None and self.expr_value_of(callee) is None:
+                    head = st.test.values[:-1]
+                    outer_test = head[0] if len(head) == 1 else ast.copy_location(ast.BoolOp(op=ast.And(), values=head), st.test)
+                    inner = ast.copy_location(ast.If(test=st.test.values[-1], body=st.body, orelse=[]), st)
+                    st = ast.copy_location(ast.If(test=outer_test, body=[inner], orelse=[]), st)
+                    ast.fix_missing_locations(st)
             if isinstance(st, ast.If):
                 # `if self._helper(..):` with a statement-like helper: evaluate it first, then test the result
                 inner = st.test.operand if isinstance(st.test, ast.UnaryOp) and isinstance(st.test.op, ast.Not) else st.test
@@ -586,13 +698,27 @@ class Inliner:
             if q not in self.known or not isinstance(fi.node, (ast.FunctionDef, ast.AsyncFunctionDef)):
                 continue
             # cheap pre-test: does it mention an unknown helper's name at all?
-            names = {u.rsplit(".", 1)[-1] for u in unknown}
+            names = {u.rsplit(".", 1)[-1] for u in unknown} | {u.rsplit(".", 2)[-2] for u in unknown if u.count(".") >= 2}
             if not any((isinstance(n, ast.Attribute) and n.attr in names) or (isinstance(n, ast.Name) and n.id in names) for n in ast.walk(fi.node)):
                 continue
             new = copy.deepcopy(fi.node)
             before = ast.dump(new)
             self._current_module = fi.module
+            self.objs = {}
             new.body = self.expand_block(fi, new.body, 0)
+            objs = self._find_objs(fi, new.body)
+            if objs:
+                self.objs = objs
+                body2 = self.expand_block(fi, copy.deepcopy(new.body), 0)
+                # only if every method call on the objects could be expanded (no `v.m(..)` call is left) are the fields promoted
+                left = [n for b_ in body2 for n in ast.walk(b_) if isinstance(n, ast.Call) and isinstance(n.func, ast.Attribute) and isinstance(n.func.value, ast.Name)
+                        and n.func.value.id in objs and self.prog.lookup_method(objs[n.func.value.id], n.func.attr) is not None]
+                if not left:
+                    new.body = self._fields_to_locals(body2, objs)
+                    for ci in objs.values():
+                        for m in ci.methods.values():
+                            self.expanded[m.qualname] = self.expanded.get(m.qualname, 0) + 1
+                self.objs = {}
             if ast.dump(new) != before:
                 ast.fix_missing_locations(new)
                 fi.raw_node = fi.node
